@@ -506,6 +506,43 @@ def retained_results(M, rec, rng, reps, mon):
         mon.enabled = was
 
 
+def parameters_refilled_in_place(M, rec, rng, reps, mon):
+    """An identification / sweep loop: the model parameters of a primitive are length-1 views of ONE preallocated vector that
+    is refilled in place per candidate (`theta[:] = cand`); the same argument objects go into every call - each call returns the
+    value for what the arguments hold THEN, on both engines (CasADi gets the numbers of that moment)."""
+    import sym_metanet.engines.casadi as EC
+    import sym_metanet.engines.numpy as EN
+
+    was = mon.enabled
+    mon.enabled = False
+    try:
+        for it in range(reps):
+            theta = np.zeros(3)
+            rc_, vf_, a_ = theta[0:1], theta[1:2], theta[2:3]
+            T = 10 / 3600
+            lam = rng.choice((1, 2, 3))
+            which = ("get_mainstream_flow", "Veq")[it % 2]
+            for k in range(3):
+                theta[:] = (rng.uniform(25.0, 40.0), rng.uniform(90.0, 130.0), rng.uniform(1.2, 3.2))
+                if which == "get_mainstream_flow":
+                    d, w, vc, v1 = rng.uniform(3000, 9000), rng.uniform(0, 60), rng.choice((500.0, rng.uniform(20.0, 90.0))), rng.uniform(20.0, 110.0)
+                    got = float(np.asarray(EN.OriginsEngine.get_mainstream_flow(np.array([d]), np.array([w]), np.array([vc]), np.array([v1]), rc_, a_, vf_, lam, T)).ravel()[0])
+                    exp = float(np.asarray(cs.DM(EC.OriginsEngine.get_mainstream_flow(cs.DM(d), cs.DM(w), cs.DM(vc), cs.DM(v1), float(theta[0]), float(theta[2]), float(theta[1]), lam, T))).ravel()[0])
+                    ref = R.mainstream_flow(d, w, vc, v1, float(theta[0]), float(theta[2]), float(theta[1]), lam, T, [], "main")
+                else:
+                    rho = rng.uniform(5.0, 150.0)
+                    got = float(np.asarray(EN.LinksEngine.Veq(np.array([rho]), vf_, rc_, a_)).ravel()[0])
+                    exp = float(np.asarray(cs.DM(EC.LinksEngine.Veq(cs.DM(rho), float(theta[1]), float(theta[0]), float(theta[2])))).ravel()[0])
+                    ref = R.veq(rho, float(theta[1]), float(theta[0]), float(theta[2]))
+                rec.count("calls_with_parameters_refilled_in_place")
+                if not (abs(got - exp) <= 1e-9 * (1 + abs(exp))) or not (abs(got - ref) <= 1e-9 * (1 + abs(ref))):
+                    rec.violation(f"{PROP}:{which}: numpy: with parameter arrays refilled in place between calls (the same argument objects), the value is not the one for what they hold now",
+                                  {"primitive": which, "call": k, "numpy": got, "casadi_with_those_numbers": exp, "reference": ref, "parameters_now": theta.tolist()})
+                    break
+    finally:
+        mon.enabled = was
+
+
 def run(M, rec, tier, seed, k, n):
     np.seterr(all="ignore")
     rng = random.Random(seed * 1000 + k + 1500)
@@ -518,6 +555,7 @@ def run(M, rec, tier, seed, k, n):
         direct_calls(M, rec, rng, 12000 if tier == "quick" else 150000)
         numpy_arguments_to_casadi(M, rec, rng, 960 if tier == "quick" else 9600, mon)
         retained_results(M, rec, rng, 480 if tier == "quick" else 4800, mon)
+        parameters_refilled_in_place(M, rec, rng, 100 if tier == "quick" else 1000, mon)
         was_ = mon.enabled
         mon.enabled = False  # (complex arguments have no CasADi counterpart: decided against finite differences of the same primitives)
         try:
